@@ -303,7 +303,10 @@ func runStage(b *build, prop string, st Stage, tier string, seed uint64, workers
 					// watchdog: the running task reached no scheduling point for a long real time
 					sr.Agg.NInconcl++
 					sr.Crashes = append(sr.Crashes, fmt.Sprintf("run %d: no scheduling point within the watchdog (spin or native block): %s", died, watchdogFrame(stderr.String())))
-				case code == 2:
+				case code == 98:
+					sr.Agg.NInconcl++
+					sr.Crashes = append(sr.Crashes, fmt.Sprintf("run %d: heap limit exceeded (unbounded allocation): %s", died, watchdogFrame(stderr.String())))
+				case code == 96:
 					mu.Unlock()
 					fmt.Fprintln(os.Stderr, stderr.String())
 					fatal2("worker reported infrastructure trouble (harness=%s run=%d)", st.Harness, died)
@@ -680,13 +683,13 @@ func runReplay(b *build, path string) (int, string) {
 			}
 			return 3, string(out)
 		default:
-			if code != 0 && code != 2 {
+			if code != 0 && code != 96 {
 				return 1, string(out)
 			}
 			if code == 0 {
 				return 3, string(out)
 			}
-			return code, string(out)
+			return 2, string(out)
 		}
 	}
 	return code, string(out)
